@@ -26,6 +26,8 @@ LawPrefix(c)   == ~Invalid(c) => \A i \in 0..(c.e - c.s) : Want(c, i + 1) => Wan
 (* Acceptance of an observation.  out.runs is a sequence (one per exact    *)
 (* unit) of records                                                        *)
 (*   [raised: string ("" when none), w: <<<<start, end>>, ...>> in ticks,   *)
+(*    w2: the windows of a clip with the same bounds on another recording, *)
+(*        segmented afterwards in the same process (samerec/ids cover both) *)
 (*    samerec: BOOLEAN, ids_distinct: BOOLEAN, ids_repeat: BOOLEAN]         *)
 (***************************************************************************)
 Clauses == {"Rejects", "Windows", "SameRecording", "IdsDistinct", "IdsDeterministic"}
@@ -34,7 +36,7 @@ Holds(cl, o) ==
     \A u \in DOMAIN o.out.runs :
       LET r == o.out.runs[u] IN
       CASE cl = "Rejects"  -> Invalid(c) <=> (r.raised = "ValueError")
-        [] cl = "Windows"  -> (~Invalid(c) /\ r.raised = "") => r.w = ReqWindows(c)
+        [] cl = "Windows"  -> (~Invalid(c) /\ r.raised = "") => r.w = ReqWindows(c) /\ r.w2 = ReqWindows(c)   \* w2: same bounds, other recording, called afterwards
         [] cl = "SameRecording"    -> r.raised = "" => r.samerec
         [] cl = "IdsDistinct"      -> r.raised = "" => r.ids_distinct
         [] cl = "IdsDeterministic" -> r.raised = "" => r.ids_repeat
